@@ -95,6 +95,11 @@ pub enum N {
         id: u32,
         sig: u8,
     },
+    /// `kill -s USR1 $$`: a signal for which the main shell has a trap with an
+    /// invisible action (`trap : USR1`). Only generated in programs without
+    /// asynchronous jobs, so that the sender is always a foreground child (or
+    /// the main shell itself) and no `wait` built-in can be interrupted.
+    Kp,
 }
 
 #[derive(Clone, Debug, Serialize, Deserialize)]
@@ -102,6 +107,9 @@ pub struct Case {
     pub nodes: Vec<N>,
     pub pipefail: bool,
     pub dash_c: bool,
+    /// the main shell traps SIGUSR1 (`trap : USR1`); children send it (`Kp`)
+    #[serde(default)]
+    pub sigpar: bool,
 }
 
 // ---------------------------------------------------------------- generation
@@ -114,6 +122,7 @@ struct Gen<'a> {
     word: u32,
     funcs: Vec<u32>,
     budget: i32,
+    sigpar: bool,
 }
 
 impl Gen<'_> {
@@ -135,6 +144,7 @@ impl Gen<'_> {
             self.budget -= 1;
             let choice = self.rng.below(100);
             match choice {
+                0..=17 if self.sigpar && self.rng.below(3) == 0 => out.push(N::Kp),
                 0..=17 => {
                     let w = self.word();
                     out.push(N::Echo(w));
@@ -344,8 +354,10 @@ pub fn generate(rng: &mut Rng, tier: Tier) -> Case {
         Tier::Quick => rng.range(4, 14) as i32,
         Tier::Thorough => rng.range(4, 25) as i32,
     };
+    let sigpar = rng.below(5) == 0;
     let mut g = Gen {
         rng,
+        sigpar,
         next_id: 0,
         next_var: 0,
         next_fn: 0,
@@ -354,9 +366,9 @@ pub fn generate(rng: &mut Rng, tier: Tier) -> Case {
         budget,
     };
     // top level: jobs may be left un-waited at the end
-    let mut nodes = g.block(0, 8, true);
+    let mut nodes = g.block(0, 8, !sigpar);
     // occasionally leave a trailing job unwaited
-    if g.rng.below(4) == 0 {
+    if !sigpar && g.rng.below(4) == 0 {
         g.next_id += 1;
         let id = g.next_id;
         let body = vec![N::Echo(g.word())];
@@ -371,6 +383,7 @@ pub fn generate(rng: &mut Rng, tier: Tier) -> Case {
         nodes,
         pipefail,
         dash_c,
+        sigpar,
     }
 }
 
@@ -489,6 +502,7 @@ fn render(n: &N, out: &mut String, _sep: &str) {
             }
         )),
         N::Call(f) => out.push_str(&format!("f{f}")),
+        N::Kp => out.push_str("kill -s USR1 $$"),
     }
 }
 
@@ -496,6 +510,9 @@ pub fn render_case(c: &Case) -> String {
     let mut s = String::new();
     if c.pipefail {
         s.push_str("set -o pipefail\n");
+    }
+    if c.sigpar {
+        s.push_str("trap : USR1\n");
     }
     render_block(&c.nodes, &mut s, "\n");
     s
@@ -684,7 +701,7 @@ fn eval(n: &N, cx: &mut Ctx) {
             let body = cx.funcs.get(f).cloned().unwrap_or_default();
             eval_block(&body, cx);
         }
-        N::Nap(_) => cx.status = 0,
+        N::Nap(_) | N::Kp => cx.status = 0,
         N::SelfKill { kind, sig, word } => {
             match kind {
                 0 => {
@@ -1264,6 +1281,7 @@ impl Prop for C13 {
                     nodes: v,
                     pipefail: c.pipefail,
                     dash_c: c.dash_c,
+                    sigpar: c.sigpar,
                 })
                 .unwrap(),
             );
@@ -1274,6 +1292,7 @@ impl Prop for C13 {
                     nodes: c.nodes.clone(),
                     pipefail: false,
                     dash_c: c.dash_c,
+                    sigpar: c.sigpar,
                 })
                 .unwrap(),
             );
